@@ -79,6 +79,11 @@ static void W(readtriple)(int *m, int *n, int_t *nz, void **v, int_t **ri, int_t
 static void W(fortran_gssv)(int *iopt, int *n, int_t *nnz, int *nrhs, void *values, int_t *rowind, int_t *colptr, void *b, int *ldb, int64_t *f, int_t *info)
 { CAT3(c_fortran_, PL, gssv_)(iopt, n, nnz, nrhs, (SCALAR *)values, rowind, colptr, (SCALAR *)b, ldb, (long long int *)f, info); }
 static void W(Copy_CompCol)(SuperMatrix *A, SuperMatrix *B) { N(Copy_CompCol_Matrix)(A, B); }
+static void W(CompRow_to_CompCol)(int m, int n, int_t nnz, void *a, int_t *ci, int_t *rp, void **at, int_t **ri, int_t **cp)
+{ N(CompRow_to_CompCol)(m, n, nnz, (SCALAR *)a, ci, rp, (SCALAR **)at, ri, cp); }
+static void W(Copy_Dense)(int m, int n, void *x, int ldx, void *y, int ldy) { N(Copy_Dense_Matrix)(m, n, (SCALAR *)x, ldx, (SCALAR *)y, ldy); }
+static void W(FillRHS)(trans_t t, int nrhs, void *x, int ldx, SuperMatrix *A, SuperMatrix *B) { N(FillRHS)(t, nrhs, (SCALAR *)x, ldx, A, B); }
+static void W(GenXtrue)(int n, int nrhs, void *x, int ldx) { N(GenXtrue)(n, nrhs, (SCALAR *)x, ldx); }
 
 static void W(fill)(vf_api *a, int precno, char letterch, ld epsv, ld tinyv, ld hugev)
 {
@@ -87,7 +92,8 @@ static void W(fill)(vf_api *a, int precno, char letterch, ld epsv, ld tinyv, ld 
     W(get), W(set), W(rget), W(rset), W(round), W(mach),
     W(Create_CompCol), W(Create_CompRow), W(Create_Dense), W(gssv), W(gssvx), W(gsisx), W(gstrf), W(gsitrf), W(gstrs), W(gsrfs),
     W(gscon), W(gsequ), W(laqgs), W(PivotGrowth), W(langs), W(QuerySpace), W(ilu_QuerySpace), W(trsv), W(gemv), W(gemm), W(ldperm),
-    W(readhb), W(readrb), W(readMM), W(readtriple), NULL, W(fortran_gssv), W(Copy_CompCol) };
+    W(readhb), W(readrb), W(readMM), W(readtriple), NULL, W(fortran_gssv), W(Copy_CompCol),
+    W(CompRow_to_CompCol), W(Copy_Dense), W(FillRHS), W(GenXtrue) };
     *a = t;
 }
 
